@@ -74,3 +74,8 @@ pub fn diagonalize<X4: simd::Words4>(s: (X4, X4, X4, X4)) -> (X4, X4, X4, X4) { 
 pub fn undiagonalize<X4: simd::Words4>(s: (X4, X4, X4, X4)) -> (X4, X4, X4, X4) { crate::undiagonalize(s) }
 pub fn finalize256(c: Compressor256) -> GenericArray<u8, digest::generic_array::typenum::U32> { c.finalize() }
 pub fn finalize512(c: Compressor512) -> GenericArray<u8, U64> { c.finalize() }
+/// the dispatching private methods (run through the real dispatch! arms by the core-wiring harnesses)
+pub fn put_block256(c: &mut Compressor256, block: &GenericArray<u8, U64>, t: (u32, u32)) { c.put_block(block, t) }
+pub fn put_block512(c: &mut Compressor512, block: &GenericArray<u8, U128>, t: (u64, u64)) { c.put_block(block, t) }
+pub fn new256(h: [u32; 8]) -> Compressor256 { let mut c = Compressor256::default(); set_h256(&mut c, h); c }
+pub fn new512(h: [u64; 8]) -> Compressor512 { let mut c = Compressor512::default(); set_h512(&mut c, h); c }
